@@ -129,6 +129,7 @@ def ctor_expected(name, args):
     `dontcare` is a set of array indices / field names the documentation does
     not decide."""
     dontcare = set()
+    present = set()
     offset = 0
     loop = None
     if name in CTOR_PARAMS:
@@ -185,12 +186,16 @@ def ctor_expected(name, args):
         curves = 'step'
         rel = a.get('release_level')
         loop = a.get('loop_level')
+        offset = a.get('offset', 0)
         # how the *level* indices map to node numbers is not decided by the
         # property statement: only "absent -> -99" is.
+        # ...but a node that is given is not encoded as absent (-99)
         if rel is not None:
             dontcare.add(2)
+            present.add(2)
         if loop is not None:
             dontcare.add(3)
+            present.add(3)
     elif name == 'pairs':
         # "sorted regarding their point in time": a stable sort on the time
         # alone - points sharing a time (a vertical jump) keep input order
@@ -219,7 +224,8 @@ def ctor_expected(name, args):
     else:
         raise ValueError(name)
     return {'levels': levels, 'times': times, 'curves': curves, 'rel': rel,
-            'loop': loop, 'offset': offset, 'dontcare': dontcare}
+            'loop': loop, 'offset': offset, 'dontcare': dontcare,
+            'present': present}
 
 
 # ---------------------------------------------------------------------------
